@@ -1,10 +1,133 @@
+(** C11 — Time interpolation adapters equal their mathematical definition.
+    Model: FV.TimeInterp (TimeCachingAdapter._source_updated/_get_data/_clear_cached_data,
+    NextTime/PreviousTime/LinearTime/StepTime._interpolate of src/finam/adapters/time.py).
+    This file contains only statements; proofs are in FVP.TimeInterp_proofs.
+
+    [run true k [] ops] = the pull results of the real (evicting) adapter on the script [ops];
+    [spec_run k [] ops] = for every pull the definition evaluated on the FULL history published so
+    far ([spec_pull]: no-data error before the first publication, time error outside the published
+    range, else [next_spec / prev_spec / lin_spec / step_spec s]).
+    [valid [] None ops]: publication times strictly increase; in-range requests do not decrease;
+    out-of-range requests may occur anywhere. *)
 From Coq Require Import List ZArith QArith Bool.
 From FV Require Import Base TimeInterp.
 From FVP Require Import TimeInterp_proofs.
 Import ListNotations.
 Open Scope Z_scope.
 
-Theorem C11_tmp : forall ev k b t0 v0 r t,
-  b = (t0, v0) :: r -> last_time t0 r < t -> snd (get_data ev k b t) = ErrTime.
-Proof. exact get_data_above. Qed.
-Print Assumptions C11_tmp.
+Theorem C11_next : forall ops, valid [] None ops ->
+  run true KNext [] ops = spec_run KNext [] ops.
+Proof. exact (adapter_is_definition true KNext). Qed.
+
+Theorem C11_prev : forall ops, valid [] None ops ->
+  run true KPrev [] ops = spec_run KPrev [] ops.
+Proof. exact (adapter_is_definition true KPrev). Qed.
+
+Theorem C11_linear : forall ops, valid [] None ops ->
+  run true KLinear [] ops = spec_run KLinear [] ops.
+Proof. exact (adapter_is_definition true KLinear). Qed.
+
+Theorem C11_step : forall (s : Q) ops, valid [] None ops ->
+  run true (KStep s) [] ops = spec_run (KStep s) [] ops.
+Proof. intros s. exact (adapter_is_definition true (KStep s)). Qed.
+
+(** After any valid script, a (valid) request exactly at a publication time returns the value
+    published at that time, for every adapter and every step position. *)
+Theorem C11_at_publication : forall k ops t v,
+  valid [] None (ops ++ [Pull t]) -> In (t, v) (pubs [] ops) ->
+  snd (get_data true k (final true k [] ops) t) = Ok v.
+Proof. exact (at_publication true). Qed.
+
+(** After any valid script, a request outside the range published so far raises a time error
+    (a no-data error when nothing was published): no extrapolation. *)
+Theorem C11_range : forall k ops t,
+  valid [] None ops -> in_range (pubs [] ops) t = false ->
+  snd (get_data true k (final true k [] ops) t) =
+  match pubs [] ops with [] => ErrNoData | _ => ErrTime end.
+Proof. exact (out_of_range_raises true). Qed.
+
+(** Discarding old buffer entries never changes a result: the adapter with eviction and the
+    same adapter keeping its whole buffer answer identically. *)
+Theorem C11_eviction_invisible : forall k ops,
+  valid [] None ops -> run true k [] ops = run false k [] ops.
+Proof. exact eviction_invisible. Qed.
+
+(** ** The definitions mean what the property says (for strictly increasing histories) *)
+
+Theorem C11_next_is_first_at_or_after : forall H t v,
+  increasing H -> next_spec H t = Some v ->
+  exists e, (In e H /\ t <= fst e /\ forall e', In e' H -> t <= fst e' -> fst e <= fst e') /\ snd e = v.
+Proof. exact next_spec_sound. Qed.
+
+Theorem C11_prev_is_last_at_or_before : forall H t v,
+  increasing H -> prev_spec H t = Some v ->
+  exists e, (In e H /\ fst e <= t /\ forall e', In e' H -> fst e' <= t -> fst e' <= fst e) /\ snd e = v.
+Proof. exact prev_spec_sound. Qed.
+
+Theorem C11_linear_formula : forall l1 t0 v0 t1 v1 l2 t,
+  increasing (l1 ++ (t0, v0) :: (t1, v1) :: l2) -> t0 <= t <= t1 ->
+  exists v, lin_spec (l1 ++ (t0, v0) :: (t1, v1) :: l2) t = Some v /\
+            (v == v0 + (inject_Z (t - t0) / inject_Z (t1 - t0)) * (v1 - v0))%Q.
+Proof. exact lin_spec_formula. Qed.
+
+Theorem C11_step_formula : forall s l1 t0 v0 t1 v1 l2 t,
+  increasing (l1 ++ (t0, v0) :: (t1, v1) :: l2) -> t0 < t < t1 ->
+  step_spec s (l1 ++ (t0, v0) :: (t1, v1) :: l2) t =
+  Some (if Qle_bool (inject_Z (t - t0) / inject_Z (t1 - t0))%Q s then v0 else v1).
+Proof. exact step_spec_formula. Qed.
+
+(** every definition is defined on the whole published range and equals the published value at a
+    publication time, so [spec_pull] never takes its error default for an in-range request *)
+Theorem C11_defined_in_range : forall k H t,
+  increasing H -> in_range H t = true -> exists v, spec k H t = Some v.
+Proof. exact spec_defined. Qed.
+
+Theorem C11_definition_at_publication : forall k H t v,
+  increasing H -> In (t, v) H -> spec_pull k H t = Ok v.
+Proof. exact spec_at_publication. Qed.
+
+(** ** Non-vacuity: a valid script with irregular gaps, requests on / between / across several
+    publications, an out-of-range request in the middle, evictions, and a single retained entry. *)
+Definition ex_ops : list op :=
+  [Pull 3; Push 0 (1#1); Push 10 (3#1); Pull 0; Pull 4; Push 13 (-2#1); Push 20 (5#1); Pull 25;
+   Pull 10; Pull 17; Pull 20; Pull 20; Push 28 (7#2); Pull 22].
+
+Example C11_nonvacuous_valid : valid [] None ex_ops /\ valid [] None (ex_ops ++ [Pull 28]).
+Proof. split; vm_compute; intuition discriminate. Qed.
+
+Example C11_nonvacuous_linear :
+  run true KLinear [] ex_ops =
+  [ErrNoData; Ok (1#1); Ok (1 + (4#10) * (3 - 1)); ErrTime; Ok (3#1);
+   Ok (-2 + (4#7) * (5 - -2)); Ok (5#1); Ok (5#1); Ok (5 + (2#8) * ((7#2) - 5))]%Q.
+Proof. vm_compute. reflexivity. Qed.
+
+Example C11_nonvacuous_others :
+  run true KNext [] ex_ops =
+    [ErrNoData; Ok (1#1); Ok (3#1); ErrTime; Ok (3#1); Ok (5#1); Ok (5#1); Ok (5#1); Ok (7#2)]
+  /\ run true KPrev [] ex_ops =
+    [ErrNoData; Ok (1#1); Ok (1#1); ErrTime; Ok (3#1); Ok (-2#1); Ok (5#1); Ok (5#1); Ok (5#1)]
+  /\ run true (KStep (4#10)) [] ex_ops =      (* t=4 is exactly at the step position: old value *)
+    [ErrNoData; Ok (1#1); Ok (1#1); ErrTime; Ok (3#1); Ok (5#1); Ok (5#1); Ok (5#1); Ok (5#1)]
+  /\ final true KLinear [] ex_ops = [(20, 5#1); (28, 7#2)]
+  /\ pubs [] ex_ops = [(0, 1#1); (10, 3#1); (13, -2#1); (20, 5#1); (28, 7#2)]
+  /\ in_range (pubs [] ex_ops) 29 = false
+  /\ In (28, 7#2) (pubs [] ex_ops).
+Proof. vm_compute. intuition. Qed.
+
+Example C11_nonvacuous_formulas :
+  increasing ([(0, 1#1)] ++ (10, 3#1) :: (13, -2#1) :: [(20, 5#1)]) /\ 10 <= 12 <= 13 /\ 10 < 12 < 13.
+Proof. vm_compute. intuition discriminate. Qed.
+
+Print Assumptions C11_next.
+Print Assumptions C11_prev.
+Print Assumptions C11_linear.
+Print Assumptions C11_step.
+Print Assumptions C11_at_publication.
+Print Assumptions C11_range.
+Print Assumptions C11_eviction_invisible.
+Print Assumptions C11_next_is_first_at_or_after.
+Print Assumptions C11_prev_is_last_at_or_before.
+Print Assumptions C11_linear_formula.
+Print Assumptions C11_step_formula.
+Print Assumptions C11_defined_in_range.
+Print Assumptions C11_definition_at_publication.
